@@ -11,7 +11,7 @@
      level0_nonzero   :  the sub-size-1 evaluation is not identically zero (the complementary input class is
                          the known finding `level0-all-zero`, see C09_iterate_level0_all_zero_* below).        *)
 From Coq Require Import Reals List Bool Arith Lra.
-From PAV Require Import Base.NumOps Base.Res Base.Sum Model.C09 Proofs.C09 Model.C09h Proofs.C09h Proofs.C09t.
+From PAV Require Import Base.NumOps Base.Res Base.Sum Model.C09 Proofs.C09 Model.C09h Proofs.C09h Proofs.C09t Proofs.C09u.
 Import ListNotations.
 Local Open Scope R_scope.
 
@@ -244,6 +244,41 @@ Example C09_ex_half_covered_pixel :
   @array_via_func ROps (fun p => if Rltb 0 (fst p) then 1 else 0) [[false]] (1, 1) (0, 0) [2%nat] = [1 / 2].
 Proof. exact half_covered_pixel_bins_to_half. Qed.
 
+(* ---- 7. HELD points: the decorator on a Grid2DOverSampled evaluates f on the points the object HOLDS (shifted / deflected
+        sub-points), binned by the object's over sampler: per-pixel mean of f over the pixel's own s_i^2 held points *)
+Theorem C09_decorator_oversampled_grid_uses_held_points : forall (f : R * R -> R) m ss (held : list (R * R)),
+  shape_okP m ss -> length held = list_sum (map (fun s => (s * s)%nat) ss) ->
+  @decorated_oversampled ROps f m ss held = @spec_held ROps f ss held.
+Proof. exact decorator_oversampled_grid_uses_held_points. Qed.
+Theorem C09_decorator_oversampled_on_own_grid : forall (f : R * R -> R) m (ps og : R * R) ss,
+  @decorated_oversampled ROps f m ss (@over_sampled_grid ROps m ps og ss) = @array_via_func ROps f m ps og ss.
+Proof. exact decorator_oversampled_on_own_grid. Qed.
+(* a Grid2D whose values are not the pixel centres of its mask: the binned result of the mask's sub-grid whenever over sampling
+   is performed (the plain evaluation on the held values when it is not: C09_decorator_sub_size_one / _map_ones) *)
+Theorem C09_decorator_uniform_map_any_values : forall (f : R * R -> R) m (ps og : R * R) (vals : list (R * R)) ss,
+  shape_okP m ss -> ps_okR ps -> perform_over_sampling m (@OSUniformMap ROps ss) = true ->
+  @decorated ROps f m ps og vals (@OSUniformMap ROps ss) = Ok (@spec_via_func ROps f m ps og ss).
+Proof. exact decorator_uniform_map_any_values. Qed.
+Theorem C09_decorator_uniform_int_any_values : forall (f : R * R -> R) m (ps og : R * R) (vals : list (R * R)) s,
+  (2 <= s)%nat -> ps_okR ps ->
+  @decorated ROps f m ps og vals (@OSUniformInt ROps s) = Ok (@spec_via_func ROps f m ps og (repeat s (length (unmasked m)))).
+Proof. exact decorator_uniform_int_any_values. Qed.
+(* one pixel, sub-size 2, f = y, held = the uniform centres shifted by +5 in y: 5 (held points), not 0 (the sampler's centres) *)
+Example C09_ex_held_points_are_used :
+  @decorated_oversampled ROps fst [[false]] [2%nat] [(5 + 1/4, -1/4); (5 + 1/4, 1/4); (5 - 1/4, -1/4); (5 - 1/4, 1/4)] = [5]
+  /\ @array_via_func ROps fst [[false]] (1, 1) (0, 0) [2%nat] = [0].
+Proof. exact held_points_are_used. Qed.
+(* ONE over sampler, any history without edits of the map: the k-th step, if it is a decorated call with a Grid2DOverSampled
+   holding [held], returns the per-pixel means of f over [held], whatever was read, cached or held before *)
+Theorem C09_sampler_history_held_step : forall m (ps og : R * R) ss (ops : list (@sop ROps)) k held f,
+  shape_okP m ss ->
+  forallb (fun op => match op with SEdit _ _ => false | _ => true end) ops = true ->
+  nth_error ops k = Some (@SHeld ROps held f) -> length held = list_sum (map (fun s => (s * s)%nat) ss) ->
+  nth_error (@srun ROps (@sampler_new ROps m ps og ss) ops) k = Some (@RNums ROps (@spec_held ROps f ss held)).
+Proof. exact sampler_history_held_step. Qed.
+Example C09_ex_perform_map : perform_over_sampling ex_mask (@OSUniformMap ROps [2; 1; 3; 8]%nat) = true.
+Proof. reflexivity. Qed.
+
 Print Assumptions C09_hyp_shape.
 Print Assumptions C09_hyp_scales.
 Print Assumptions C09_hyp_thr.
@@ -285,3 +320,9 @@ Print Assumptions C09_integer_valued_bins_to_exact_rational_mean.
 Print Assumptions C09_indicator_bins_to_covered_fraction.
 Print Assumptions C09_bin_of_integers_is_exact_rational_mean.
 Print Assumptions C09_ex_half_covered_pixel.
+Print Assumptions C09_decorator_oversampled_grid_uses_held_points.
+Print Assumptions C09_decorator_oversampled_on_own_grid.
+Print Assumptions C09_decorator_uniform_map_any_values.
+Print Assumptions C09_decorator_uniform_int_any_values.
+Print Assumptions C09_ex_held_points_are_used.
+Print Assumptions C09_sampler_history_held_step.
